@@ -54,6 +54,8 @@ func init() {
 			{ID: "C16-R30", Title: "read-only operations do not write the container", Floor: 20, Run: readOnlyOperationsDoNotWriteTheContainer},
 			{ID: "C16-R31", Title: "iterators read the container at every step", Floor: 5, Run: iteratorsReadTheContainerAtEveryStep},
 			{ID: "C16-R32", Title: "derived operands are derived last", Floor: 1, Run: derivedOperandsAreDerivedLast},
+			{ID: "C16-R33", Title: "mutable values are not shared", Floor: 1, Run: mutableValuesAreNotShared},
+			{ID: "C16-R34", Title: "an update writes the argument last", Floor: 1, Run: anUpdateWritesTheArgumentLast},
 		},
 	})
 }
